@@ -142,3 +142,58 @@ Example C04_chain_cascade_nonvacuous :
 Proof. vm_compute. repeat split; reflexivity. Qed.
 
 Print Assumptions C04_chain_cascade.
+
+(* SettleAll terminates: the last statement of the composition *)
+From TarpcV Require Client Server Chain ChainSpec ChainRounds3 ChainRounds4 ChainRounds5.
+(* ============================================================================================
+   Fragment for Properties/C04.v (or C14.v): SettleAll of the chain composition terminates.
+   Everything is qualified; compiles on its own:
+     coqc -Q /verif/coq TarpcV ChainRoundsFragment.v
+   ============================================================================================ *)
+From Coq Require Import List Bool Arith NArith.
+Import ListNotations.
+From TarpcV Require Import Base Transport.
+From TarpcV Require Client Server Chain ChainSpec ChainRounds3 ChainRounds4 ChainRounds5.
+
+(* a potential of the whole chain (ChainRounds3.Phi: weighted count of everything that is still
+   to be moved, node i weighing its items with 22 * (number of nodes behind it)).  From ANY
+   chain state (reachable or not): a round of SettleAll never increases it, and a round that
+   leaves it unchanged leaves Chain.digest unchanged and has no event other than KOracle *)
+Theorem C04_chain_round_potential : forall (ch ch1 : Chain.chain) (ev : list Chain.cobs),
+  Chain.round ch = (ch1, ev) ->
+  ChainRounds3.Phi ch1 <= ChainRounds3.Phi ch /\
+  (ChainRounds3.Phi ch1 = ChainRounds3.Phi ch ->
+   Chain.digest ch1 = Chain.digest ch /\ forallb ChainRounds3.okev ev = true).
+Proof. exact ChainRounds4.round_RC. Qed.
+
+(* hence, from ANY chain state: with more rounds than the potential, settle reaches a quiet
+   round unless a timer-order oracle disagreed *)
+Theorem C04_chain_settle_quiet :
+  forall (n : nat) (ch : Chain.chain) (acc : list Chain.cobs) (ch' : Chain.chain)
+         (evs : list Chain.cobs) (q : bool),
+  ChainRounds3.Phi ch < n -> Chain.settle n ch acc = (ch', evs, q) ->
+  q = true \/ exists i, In (Chain.KOracle i) evs.
+Proof. exact ChainRounds4.settle_quiet. Qed.
+
+(* the round budget of the model dominates the potential: Chain.rounds_of ch =
+   8 + 22 * |ch| + 22 * |ch| * (sum of Chain.node_size), node_size counting every queue, list of
+   timers, waiters, tracked entries, handler records and link contents of a node *)
+Theorem C04_chain_potential_bound : forall ch : Chain.chain,
+  ChainRounds3.Phi ch < Chain.rounds_of ch.
+Proof. exact ChainRounds5.Phi_lt_rounds. Qed.
+
+(* ChainSpec.stmt_chain_rounds: for EVERY depth and EVERY op list (tainted or not), as long as
+   no timer-order oracle disagreed (KOracle is printed with the gauges of every server step),
+   every SettleAll reaches a quiet round within Chain.rounds_of rounds - it never prints KRounds.
+   With C14_chain_fuel_iff_rounds: the monitor Chain.cfuel_ok accepts every such run.  The
+   unconditional form is false (C14_chain_fuel_pinned_refuted: beyond the DelayQueue range the
+   oracle is bad for good and KOracle is an event of every round) *)
+Theorem C04_chain_rounds : forall (d : nat) (ops : list Chain.cop),
+  (forall l i, In l (fst (Chain.run d ops)) -> ~ In (Chain.KOracle i) l) ->
+  forall l, In l (fst (Chain.run d ops)) -> ~ In Chain.KRounds l.
+Proof. exact ChainRounds5.chain_rounds. Qed.
+
+Print Assumptions C04_chain_round_potential.
+Print Assumptions C04_chain_settle_quiet.
+Print Assumptions C04_chain_potential_bound.
+Print Assumptions C04_chain_rounds.
